@@ -36,6 +36,7 @@ CONSTANTS
   PeerFaults,          \* subset of {"silence","refused","reset"} the controller side may choose instead of replying
   DeadlineBeforeLock,  \* design switch (defect F10: deadline computed before waiting for the guard)
   NoGuard,             \* design switch (no process-wide lock around a fixed port)
+  GuardPerClient,      \* design switch (the lock belongs to a client instead of the process: clients do not exclude each other)
   RearmPerRead,        \* design switch (deadline re-armed before every read: a flood keeps a call alive)
   NoCloseOnError       \* design switch (socket not closed on the error path)
 
@@ -47,6 +48,9 @@ None == "none"
 Path(c) == CallCfg[c].path
 Kind(c) == CallCfg[c].kind
 Ctl(c) == CallCfg[c].ctl
+\* Several clients coexist in the process (Rig L builds one per delivery path); the guard of the code is a
+\* package-level mutex, i.e. shared by all of them.
+Client(c) == Path(c)
 
 \* ---- how a datagram of class `cls` is treated by a call (C03) ---------------------------------
 (* valid      64 bytes, right protocol id, the call's function code, the call's serial, all fields ok *)
@@ -62,7 +66,7 @@ Verdict(c, cls) ==
 Init ==
   /\ now = 0
   /\ pc = [c \in Calls |-> "idle"]
-  /\ guard = None
+  /\ guard = {}
   /\ dl = [c \in Calls |-> -1]
   /\ askedAt = [c \in Calls |-> -1]
   /\ q = [c \in Calls |-> <<>>]
@@ -90,10 +94,13 @@ Enter(c) ==
   /\ UNCHANGED <<now, guard, askedAt, q, open, pend, plan, strays, sends>>
 
 NeedsGuard == FixedPort /\ ~NoGuard
+\* `guard` is the set of calls holding the lock: at most one in the design as built (a process-wide mutex)
+Excludes(h, c) == IF GuardPerClient THEN Client(h) = Client(c) ELSE TRUE
+CanLock(c) == \A h \in guard : ~Excludes(h, c)
 
 Lock(c) ==
   /\ pc[c] = "entered"
-  /\ IF NeedsGuard THEN guard = None /\ guard' = c ELSE UNCHANGED guard
+  /\ IF NeedsGuard THEN CanLock(c) /\ guard' = guard \cup {c} ELSE UNCHANGED guard
   /\ pc' = [pc EXCEPT ![c] = "locked"]
   /\ UNCHANGED <<now, dl, askedAt, q, open, pend, out, plan, strays, sends, hist>>
 
@@ -198,7 +205,7 @@ PeerErr(c) ==
 Finish(c) ==
   /\ pc[c] = "closing"
   /\ open' = IF NoCloseOnError /\ out[c].kind \notin {"ok"} THEN open ELSE open \ {c}
-  /\ guard' = IF guard = c THEN None ELSE guard
+  /\ guard' = guard \ {c}
   /\ pc' = [pc EXCEPT ![c] = "returning"]
   /\ Log([a |-> "Return", c |-> c, t |-> now, kind |-> out[c].kind, cls |-> out[c].cls, from |-> out[c].from,
           rel |-> IF askedAt[c] = -1 THEN -1 ELSE now - askedAt[c]])
@@ -215,7 +222,7 @@ Urgent ==
   \/ \E p \in pend : p.at <= now
   \/ \E c \in Calls : pc[c] = "sent" /\ (q[c] # <<>> \/ now >= dl[c] \/ (plan[c] # <<>> /\ plan[c][1][1] \in {"reset", "refused"}))
   \/ \E c \in Calls : pc[c] \in {"closing", "locked", "returning"}
-  \/ \E c \in Calls : pc[c] = "entered" /\ (guard = None \/ ~NeedsGuard)
+  \/ \E c \in Calls : pc[c] = "entered" /\ (CanLock(c) \/ ~NeedsGuard)
 
 Tick ==
   /\ now < MaxNow /\ ~Urgent
@@ -236,7 +243,8 @@ FairSpec == Spec /\ WF_vars(Next)
 Normal(c) == Kind(c) \in {"normal", "status"}
 AllDone == \A c \in Calls : pc[c] = "done"
 
-TypeOK == now \in 0..MaxNow /\ guard \in Calls \cup {None} /\ open \subseteq Calls
+TypeOK == now \in 0..MaxNow /\ guard \subseteq Calls /\ open \subseteq Calls
+GuardExclusive == Cardinality(guard) <= 1
 
 \* C03 -- only a well-formed reply from the addressed controller is ever accepted
 AcceptOnlyValid == \A c \in Calls : (out[c].kind = "ok" /\ Normal(c)) => Verdict(c, out[c].cls) = "accept"
@@ -269,7 +277,7 @@ TimelyAnswerAccepted ==
 DeadlineFromAsk == \A c \in Calls : (askedAt[c] # -1 /\ pc[c] = "sent") => dl[c] = askedAt[c] + T
 NoEarlyGiveUp == \A c \in Calls : out[c].kind = "timeout" => (askedAt[c] # -1 /\ out[c].at >= askedAt[c] + T)
 BoundedReturn == \A c \in Calls : (pc[c] = "sent") => now <= askedAt[c] + T
-Released == \A c \in Calls : pc[c] \in {"returning", "done"} => (c \notin open /\ guard # c)
+Released == \A c \in Calls : pc[c] \in {"returning", "done"} => (c \notin open /\ c \notin guard)
 Termination == \A c \in Calls : (pc[c] = "entered") ~> (pc[c] = "done")
 
 \* history variables are output only
